@@ -803,6 +803,7 @@ def run_nested(case):
     verb = {int(k): v for k, v in case.get('verb', {}).items()}
     ending = {int(k): v for k, v in case.get('ending', {}).items()}
     capm = {int(k): v for k, v in case.get('cap', {}).items()}     # opt-in (kind 'ncnest'): io.capture per action
+    escaped = {}                                                   # what left Task.execute, per action
     tasks = {}
     ident_after = []
 
@@ -839,7 +840,8 @@ def run_nested(case):
         else:
             t = task.Task('t%d' % a, [fn], verbosity=v)
         tasks[a] = t
-        call(lambda: t.execute(task.Stream(v)))
+        _, esc = call(lambda: t.execute(task.Stream(v)))
+        escaped[str(a)] = type(esc).__name__ if esc is not None else None
         if owner is None:
             ident_after.append([a] + sw.identity())
 
@@ -848,7 +850,7 @@ def run_nested(case):
         ident = sw.identity()
     obs = {'restored': ident, 'after_each_top': ident_after, 'O': toks(sw.O.getvalue(), 'o'),
            'E': toks(sw.E.getvalue(), 'e'), 'out': {}, 'err': {},
-           'harness_exc': type(raised).__name__ if raised is not None else None}
+           'harness_exc': type(raised).__name__ if raised is not None else None, 'escaped': escaped}
     for a, t in tasks.items():
         act = t.actions[0]
         obs['out'][str(a)] = toks(act.out, 'o')
